@@ -399,6 +399,28 @@ def run(ctx):
         if i % 100 == 99:
             ctx.flush()
     ctx.flush()
+    # ---- consecutive calls (state carried between calls): the same Fourier grid, band and NUMBER of targets with the same first and
+    # last target but different interior points (log-spaced, then linearly spaced, then jittered), and grids of equal size sharing
+    # their end points — every call is judged on its own, so a result cached from the previous call shows
+    for i in range(40 if quick else 400):
+        n = rng.randint(6, 30)
+        g = grid(rng, n, True)
+        fs = g[1:]
+        m = rng.randint(4, 12)
+        lo, hi = float(fs[0]) * rng.uniform(0.8, 1.5), float(fs[-1]) * rng.uniform(0.6, 1.1)
+        band = rng.choice(BANDS)
+        A = spectrum(rng, n, 'positive')
+        sm_log = np.logspace(math.log10(lo), math.log10(hi), m)
+        sm_lin = np.linspace(lo, hi, m)
+        sm_jit = sm_lin.copy()
+        sm_jit[1:-1] = np.sort(sm_lin[1:-1] * np.array([rng.uniform(0.9, 1.1) for _ in range(m - 2)]))
+        sm_log[0], sm_log[-1], sm_jit[0], sm_jit[-1] = sm_lin[0], sm_lin[-1], sm_lin[0], sm_lin[-1]
+        for sm in (sm_log, sm_lin, sm_jit):
+            array_case(ctx, 'consecutive/same-ends', g, A, sm, band, small=True)
+        g2 = g.copy()
+        g2[2:-1] = np.sort(g[2:-1] * np.array([rng.uniform(0.95, 1.05) for _ in range(len(g) - 3)])) if len(g) > 4 else g2[2:-1]
+        array_case(ctx, 'consecutive/grid-same-ends', g2, A, sm_lin, band, small=True)
+        ctx.flush()
     # ---- object level
     n_obj = 120 if quick else 1200
     for i in range(n_obj):
